@@ -183,11 +183,19 @@ def run_driver(name, lines, timeout=1800):
 
 
 def known_findings(pid):
-    if not os.path.exists(KNOWN):
-        return {}
-    with open(KNOWN) as fh:
-        data = json.load(fh)
-    return {e["key"]: e for e in data.get("findings", []) if e["property"] == pid and e.get("status", "open") == "open"}
+    """open findings for `pid` from known_findings.json and known_findings.d/*.json (both committed, never written here)"""
+    files = [KNOWN] if os.path.exists(KNOWN) else []
+    d = os.path.join(VERIF, "known_findings.d")
+    if os.path.isdir(d):
+        files += [os.path.join(d, f) for f in sorted(os.listdir(d)) if f.endswith(".json")]
+    out = {}
+    for f in files:
+        with open(f) as fh:
+            data = json.load(fh)
+        for e in data.get("findings", []):
+            if e["property"] == pid and e.get("status", "open") == "open":
+                out[e["key"]] = e
+    return out
 
 
 class Ctx:
@@ -330,7 +338,8 @@ def main(argv=None):
     try:
         import contextlib, io
         sink = io.StringIO()
-        with contextlib.redirect_stdout(sink):   # the library prints while loading/writing
+        esink = io.StringIO()
+        with contextlib.redirect_stdout(sink), contextlib.redirect_stderr(esink):   # the library prints/warns a lot
             mod.run(ctx)
     except Exception:
         tb = traceback.format_exc()
